@@ -15,7 +15,7 @@ PROP = {
     ],
     "streams": [
         {"name": "cont", "driver": "drv_cont",
-         "quick": {"n": 60}, "thorough": {"n": 400, "seeds": 3},
+         "quick": {"n": 60}, "thorough": {"n": 100, "seeds": 2},
          "timeout": {"quick": 300, "thorough": 3000}},
     ],
     "exhaustive": False,
@@ -28,7 +28,7 @@ PROP = {
                   "insert/remove/get/keys/values/containsKey consistency with distinct keys preserved by every operation, "
                   "and persistence in the transaction machine (a history of committed transactions = the same operations in "
                   "memory; an aborted transaction is a no-op).  Tied to /repo by the `cont` correspondence stream: operation "
-                  "sequences (40-300 operations quick, 200-3000 thorough) on [Int], [String] (strings up to 1100 chars: "
+                  "sequences (40-300 operations quick, 200-3000 thorough, at most ~300 per transaction) on [Int], [String] (strings up to 1100 chars: "
                   "non-inlinable), [[Int]], [struct], [T; 4] and {Int|String: Int|String|[Int]|struct}, sizes crossing atree slab "
                   "thresholds (hundreds of elements), each transaction either in memory (load, operate, save back) or in "
                   "place through an auth(Mutate) reference into storage, reloaded from the ledger in later transactions, in "
@@ -38,7 +38,7 @@ PROP = {
                   "bbq/vm and atree refine it is shown only by refinement testing on the generated sequences. atree is an "
                   "external dependency (trusted, exercised). Mutation of a container during its own iteration is not generated.",
     "assumptions": ["element universe: Int, one-letter-repeated Strings, [Int], struct K.P(a: Int, b: String); keys Int or String",
-                    "runs stopped by the harness's computation limit (10^8) are skipped, not compared"],
+                    "runs stopped by the harness computation limit (10^8) or rejected by the VM compiler as too large (65534 instructions per function) are skipped, not compared"],
     "trusted_base": ["spec Verif.Spec.Containers / machine Verif.Model.Cont (is the spec)",
                      "Go harness cmd/vharness/stream_cont.go (typed Cadence templates; canonicalisation: letter runs compressed, "
                      "composite fields and dictionary enumerations sorted)", "driver Drv/Cont.lean"],
